@@ -43,6 +43,8 @@ def run(ctx, rep):
     for key, v in sorted(d.viol.items()):
         if v['rule'] == 'C04.O5' or (v['rule'] == 'C04.O4' and key.endswith('UNREF(HDR)')):
             rep.violation('C12.1', key, v['where'], v['msg'], {'path': v['chain']})
+        if v['rule'] == 'C04.O6' and 'grow' in key:
+            rep.violation('C12.3', key.replace('C04.O6', 'C12.3'), v['where'], v['msg'], {'path': v['chain']})
     for h in d.cut_hangs:
         rep.ob('C12.5', h, False, 'certain self-deadlock on the growth path')
         rep.violation('C12.5', 'C12.5:' + h.split(' requested')[0], '',
@@ -121,6 +123,8 @@ def run(ctx, rep):
     header_mirror_rule(f, rep)
     from . import c08
     c08.grant_rule(f, P, rep, 'C12.9')
+    rep.rule('C12.10', 'building the grown copy of a top table leaves the source table untouched (the source stays the live table when the growth fails)')
+    source_untouched_rule(f, P, rep)
     rep.rule('C12.6', 'the fresh refblock of the growth path accounts for the refblock and every cluster of the relocated table')
     growth_refcount_rule(f, rep)
     rep.floor('zero/punch wrappers', len(wrappers), 1)
@@ -141,6 +145,66 @@ def run(ctx, rep):
                           '%s passes a zero length to the backend: table growth zeroes an empty range in front of a '
                           'refblock that starts its slice range, the punch fails and the zero-write fallback allocates a '
                           '0-byte buffer (panic)' % short(b.path))
+
+
+INTERIOR_MUTATORS = (
+    'RefCell::<T>::take', 'RefCell::<T>::replace', 'RefCell::<T>::replace_with', 'RefCell::<T>::swap', 'RefCell::<T>::borrow_mut',
+    'RefCell::<T>::try_borrow_mut', 'Cell::<T>::set', 'Cell::<T>::replace', 'Cell::<T>::take', 'Cell::<T>::swap',
+    '::store', '::swap', '::fetch_add', '::fetch_sub', '::fetch_or', '::fetch_and', '::compare_exchange',
+    'Mutex::<T>::lock', 'RwLock::<T>::write', 'UnsafeCell::<T>::get')
+
+
+def _derives_from(P, b, op, roots):
+    if op['k'] not in ('copy', 'move'):
+        return False
+    def hit(o):
+        if o in roots:
+            return True
+        if isinstance(o, tuple) and o and o[0] == 'field':
+            return hit(o[1]) if isinstance(o[1], tuple) else ('arg', o[1]) in roots
+        return False
+    return any(hit(o) for o in P.place_origins(b, op['pl']))
+
+
+def source_untouched_rule(f, P, rep):
+    """C12.10: `clone_and_grow(&self, ..)` only reads its source.  The copy is installed by the caller after the growth
+    succeeded; when the growth fails the source is still the live table and must have kept its entries and its queue of
+    dirty blocks.  Decided on the body (helpers followed through arguments that derive from `self`): no interior-mutation
+    primitive is applied to something reached from the source."""
+    roots_fn = [b for b in f.body_list if b.path.endswith('::clone_and_grow') and '::tests::' not in b.path]
+    rep.floor('table copy constructors (clone_and_grow)', len(roots_fn), 2)
+    for b0 in roots_fn:
+        bad = []
+        seen = set()
+        work = [(b0, frozenset({('arg', 1)}), 0)]
+        n = 0
+        while work:
+            b, roots, d = work.pop()
+            if (b.path, roots) in seen or d > 4:
+                continue
+            seen.add((b.path, roots))
+            for bi, t in b.calls():
+                fn = t.get('fn') or ''
+                n += 1
+                if not t['args']:
+                    continue
+                if any(fn.endswith(m) for m in INTERIOR_MUTATORS) and _derives_from(P, b, t['args'][0], roots):
+                    bad.append((b.where(bi), fn))
+                    continue
+                cb = f.body(fn)
+                if cb is not None and not cb.is_coroutine:
+                    r2 = frozenset(('arg', i + 1) for i, a in enumerate(t['args']) if _derives_from(P, b, a, roots))
+                    if r2:
+                        work.append((cb, r2, d + 1))
+        me = b0.path.split('::')[-2] + '::clone_and_grow'
+        rep.ob('C12.10', me, not bad, '%d call(s) followed from the source table; %s' % (
+            n, 'none changes it' if not bad else 'source changed by %s' % ', '.join('%s at %s' % (x[1].split('::', 2)[-1], x[0]) for x in bad)))
+        if bad:
+            rep.violation('C12.10', 'C12.10:%s' % me, bad[0][0],
+                          '%s changes the table it copies (`%s` on something reached from `self`): the caller installs the copy '
+                          'only after the growth succeeded, so when the growth fails the old table stays live with that state '
+                          'taken away - entries set since the last flush are never written and flush_meta() reports success' % (
+                              me, bad[0][1].split('::', 2)[-1]))
 
 
 def growth_refcount_rule(f, rep):
